@@ -20,6 +20,7 @@ Not decided: parents/children outside the model families; networkx merge semanti
 """
 import itertools
 
+from ..core import AnalysisError
 from ..minieval import ModelRaise
 from ..pkgenv import Package
 from ..refmodel import RefBlackBox, RefCircuit, build, free_nodes, simulate
@@ -132,6 +133,22 @@ def run(chk):
     chk.explanation = ("add_subcircuit / fill_blackbox (methods, from circuit.py's source, self = reference model) and tx.strip_blackboxes are evaluated by the checker's evaluator on model parents/children; "
                        "the result is compared with functional substitution by exhaustive simulation, plus bookkeeping of io sets and the blackbox registry.")
     chk.assume("reference DiGraph model for relabel_nodes / Graph.update (attribute dicts copied, node attributes merged)")
+    # ---- structural: the child circuit argument is neither mutated nor retained (E2 dataflow) ----
+    from ..effects import Analyzer, VIOLATING_PARTS
+    from ..structural import vocabulary_rule
+
+    an = Analyzer(repo)
+    an.run()
+    for meth, param in (("Circuit.add_subcircuit", "sc"), ("Circuit.fill_blackbox", "c")):
+        s = an.summ[(FILE, meth)]
+        if param not in s.params:
+            raise AnalysisError(f"{meth} lost its parameter {param}", FILE)
+        effs = [e for e in s.effects if e["param"] == param and e["part"] in VIOLATING_PARTS]
+        chk.ob("C06.A.child-not-mutated", f"{meth}::{param}", not effs, file=FILE, func=meth, line=effs[0]["line"] if effs else None,
+               fact={"effects": [e["how"] + " @ " + e["text"][:60] for e in effs[:3]]}, expect="the sub-circuit passed in is only read (a renamed *copy* is spliced)")
+        kept = sorted({(slot, part) for (dst, slot, src, part) in s.stores if dst == "self" and src == param and part in VIOLATING_PARTS})
+        chk.ob("C06.A.child-not-retained", f"{meth}::{param}", not kept, file=FILE, func=meth, fact={"retained_parts": kept}, expect="the parent keeps no reference to the child's graph / registry (only the shared BlackBox objects)")
+    vocabulary_rule(chk, repo, "C06.S.vocabulary", [("tx.py", "strip_blackboxes"), ("tx.py", "strip_io"), ("tx.py", "strip_inputs"), ("tx.py", "subcircuit")])
     P = Package(repo)
     fa = repo.func(FILE, "Circuit.add_subcircuit")
     ff_ = repo.func(FILE, "Circuit.fill_blackbox")
